@@ -55,7 +55,7 @@ static int prop = 9;	/* 8 or 9 */
 struct hcase {
 	uint8_t * resp; size_t resplen; int in_end;
 	int wellformed;
-	int status; int nh; char hn[10][24], hv[10][24]; size_t bodylen; int toobig;
+	int status; int nh; char hn[10][32], hv[10][24]; size_t bodylen; int toobig;
 	size_t limit; int method, nreqh, reqbody; size_t nbuf;
 	size_t * menu; int nmenu; int minimal; int conn;	/* conn: FK_C_* behaviour of the connection attempt */
 	char desc[120];
@@ -84,8 +84,10 @@ menu_add(struct hcase * c, size_t v)
 	c->menu[c->nmenu++] = v;
 }
 
-static const char * HDR_TXT[4] = { "A: b", "X:", "K: v:w", "Y: \t z \t " };
-static const char * HDR_N[4] = { "A", "X", "K", "Y" }, * HDR_V[4] = { "b", "", "v:w", "z" };
+/* the last two have names that merely start like the framing headers: they are ordinary headers */
+#define NHDR 6
+static const char * HDR_TXT[NHDR] = { "A: b", "X:", "K: v:w", "Y: \t z \t ", "Content-Length-Hint: 64", "Transfer-Encoding-Supported: gzip, chunked" };
+static const char * HDR_N[NHDR] = { "A", "X", "K", "Y", "Content-Length-Hint", "Transfer-Encoding-Supported" }, * HDR_V[NHDR] = { "b", "", "v:w", "z", "64", "gzip, chunked" };
 enum { FR_CLEN = 0, FR_CHUNKED, FR_CLOSE, FR_NONE };
 struct rspec {
 	int status; const char * reason; int minor; unsigned hmask; int fr_first;
@@ -93,13 +95,14 @@ struct rspec {
 	int ninterim, interim_long; int in_end; size_t limit_extra;	/* limit = bodysize + limit_extra, or bodysize + 1000000 if limit_extra == 99 */
 	int method, nreqh, reqbody; size_t nbuf; size_t pad;		/* pad: X-Pad header of this many bytes */
 	int clen_on_bodiless;	/* HEAD/204/304 carrying a Content-Length header */
+	int clen_zeros;		/* Content-Length written with this many leading zeros (1*DIGIT allows them) */
 };
 
 static void
 expect_hdr(struct hcase * c, const char * n, const char * v)
 {
 	if (c->nh >= 10) return;
-	snprintf(c->hn[c->nh], 24, "%s", n); snprintf(c->hv[c->nh], 24, "%s", v); c->nh++;
+	snprintf(c->hn[c->nh], 32, "%s", n); snprintf(c->hv[c->nh], 24, "%s", v); c->nh++;
 }
 
 /* Render a well-formed response from the record; fill in the expectation. */
@@ -114,13 +117,13 @@ gen(const struct rspec * r)
 	}
 	sb_fmt(&b, "HTTP/1.%d %d%s%s\r\n", r->minor, r->status, r->reason[0] ? " " : " ", r->reason);
 	c->status = r->status;
-	for (i = -1; i < 5; i++) {
-		int isfr = r->fr_first ? (i == -1) : (i == 4);
-		if (i >= 0 && i < 4 && (r->hmask & (1u << i))) { sb_str(&b, HDR_TXT[i]); sb_str(&b, "\r\n"); expect_hdr(c, HDR_N[i], HDR_V[i]); }
-		if (i == 1 && r->pad) { sb_str(&b, "X-Pad: "); for (q = 0; q < r->pad; q++) sb_add(&b, "q", 1); sb_str(&b, "\r\n"); if (c->nh < 10) { snprintf(c->hn[c->nh], 24, "X-Pad"); snprintf(c->hv[c->nh], 24, "#pad%zu", r->pad); c->nh++; } }
+	for (i = -1; i <= NHDR; i++) {
+		int isfr = r->fr_first ? (i == -1) : (i == NHDR);
+		if (i >= 0 && i < NHDR && (r->hmask & (1u << i))) { sb_str(&b, HDR_TXT[i]); sb_str(&b, "\r\n"); expect_hdr(c, HDR_N[i], HDR_V[i]); }
+		if (i == 1 && r->pad) { sb_str(&b, "X-Pad: "); for (q = 0; q < r->pad; q++) sb_add(&b, "q", 1); sb_str(&b, "\r\n"); if (c->nh < 10) { snprintf(c->hn[c->nh], 32, "X-Pad"); snprintf(c->hv[c->nh], 24, "#pad%zu", r->pad); c->nh++; } }
 		if (!isfr) continue;
 		if (bodiless) { if (r->clen_on_bodiless) { sb_str(&b, "Content-Length: 5\r\n"); expect_hdr(c, "Content-Length", "5"); } continue; }
-		if (r->framing == FR_CLEN) { snprintf(t, sizeof(t), "%zu", r->bodysize); sb_fmt(&b, "Content-Length: %s\r\n", t); expect_hdr(c, "Content-Length", t); }
+		if (r->framing == FR_CLEN) { snprintf(t, sizeof(t), "%s%zu", r->clen_zeros == 1 ? "0" : r->clen_zeros == 3 ? "000" : "", r->bodysize); sb_fmt(&b, "Content-Length: %s\r\n", t); expect_hdr(c, "Content-Length", t); }
 		else if (r->framing == FR_CHUNKED) { sb_str(&b, "Transfer-Encoding: chunked\r\n"); expect_hdr(c, "Transfer-Encoding", "chunked"); }
 	}
 	sb_str(&b, "\r\n");
@@ -187,6 +190,12 @@ gen_wellformed(int thorough)
 	for (st = 0; st < 5; st++) for (m = 0; m < 3; m++) for (i = 0; i < 2; i++) { r = d; r.status = STAT[st]; r.reason = st == 3 ? "Not Found" : st == 1 ? "" : "OK"; r.method = m; r.clen_on_bodiless = i; r.minor = st & 1; gen(&r); }
 	/* header subsets, both placements of the framing header */
 	for (hm = 0; hm < 16; hm++) for (i = 0; i < 2; i++) { r = d; r.hmask = (unsigned)hm; r.fr_first = i; r.framing = (hm & 1) ? FR_CHUNKED : FR_CLEN; r.nchunks = 2; r.chunks[0] = 2; r.chunks[1] = 3; gen(&r); }
+	/* header names that merely begin like a framing header, before and after the real one, for each framing */
+	for (fr = 0; fr < 3; fr++) for (hm = 1; hm < 4; hm++) for (i = 0; i < 2; i++) { r = d; r.hmask = (unsigned)hm << 4; r.fr_first = i; r.framing = fr; r.nchunks = 2; r.chunks[0] = 2; r.chunks[1] = 3; r.bodysize = 5; if (fr == FR_CLOSE) r.in_end = FK_END_EOF; gen(&r); }
+	/* Content-Length with leading zeros (decimal, never octal), sizes 8..12 */
+	for (bs = 8; bs <= 12; bs++) for (i = 1; i <= 3; i += 2) { r = d; r.bodysize = (size_t)bs; r.clen_zeros = i; gen(&r); }
+	/* interim responses before a bodiless final response, for every method */
+	for (m = 0; m < 3; m++) for (ni = 1; ni < 3; ni++) for (il = 0; il < 2; il++) for (st = 0; st < 3; st++) { r = d; r.method = m; r.ninterim = ni; r.interim_long = il; r.status = STAT[st]; r.clen_on_bodiless = (st + m) & 1; gen(&r); }
 	/* requests */
 	for (m = 0; m < 3; m++) for (i = 0; i < 3; i++) for (bs = 0; bs < 3; bs++) { r = d; r.method = m; r.nreqh = i; r.reqbody = bs; gen(&r); }
 	/* connection-close framing ending in EOF; Content-Length/chunked with the server closing afterwards */
@@ -519,6 +528,10 @@ gen_hostile(int thorough)
 			attack(nbuf, lim, FK_END_EOF, "chunked2-vs-limit", "HTTP/1.1 200 OK\r\nTransfer-Encoding: chunked\r\n\r\n2\r\nab\r\n3\r\ncde\r\n0\r\n\r\n");
 			attack(nbuf, lim, FK_END_EOF, "close-vs-limit", "HTTP/1.1 200 OK\r\n\r\nabcde");
 		}
+		/* a huge chunk size after ordinary chunks: bodylen + size must not wrap past an ordinary limit */
+		attack(nbuf, 100, FK_END_EOF, "chunk-wrap-after-5", "HTTP/1.1 200 OK\r\nTransfer-Encoding: chunked\r\n\r\n5\r\nabcde\r\nfffffffffffffffd\r\n%0200d", 7);
+		attack(nbuf, 100, FK_END_EOF, "chunk-wrap-after-5b", "HTTP/1.1 200 OK\r\nTransfer-Encoding: chunked\r\n\r\n5\r\nabcde\r\nfffffffffffffffb\r\n%0200d", 7);
+		attack(nbuf, 100, FK_END_EOF, "chunk-wrap-after-16", "HTTP/1.1 200 OK\r\nTransfer-Encoding: chunked\r\n\r\n10\r\n0123456789abcdef\r\nfffffffffffffff5\r\n%0200d", 7);
 		/* a caller that sets no effective limit: sizes near SIZE_MAX must not wrap */
 		attack(nbuf, (size_t)-1, FK_END_EOF, "nolimit-chunk-max", "HTTP/1.1 200 OK\r\nTransfer-Encoding: chunked\r\n\r\nffffffffffffffff\r\nabc");
 		attack(nbuf, (size_t)-1, FK_END_EOF, "nolimit-chunk-max-1", "HTTP/1.1 200 OK\r\nTransfer-Encoding: chunked\r\n\r\nfffffffffffffffe\r\nabc");
